@@ -91,6 +91,17 @@ CLAIMED = {
         design_ref="DESIGN.md 3 C11, 8",
         note="Partial claim: see evidence.outside_claim for exactly what is not posed.",
     ),
+    "C18": dict(
+        engine="llsym",
+        technique="the C01/C05/C20 obligation sets (symbolic execution of optimized LLVM IR; LIA/BV; z3) re-run on non-default build configurations against the same backend-independent specifications",
+        category="model_checking",
+        text=("For the w32_backend build (32-bit limbs on x86-64) and the +avx2 build, field operations, codecs, masked "
+              "selects, zero tests and table lookups are decided equal to the same mathematical specification as the "
+              "default backend for all inputs, which gives byte-identical encodings and status words across backends."),
+        design_ref="DESIGN.md 3 C18, 8",
+        note=("Only the obligations that close are posed (w32: linear field ops except sub, codecs except strict decode at "
+              "the exact length, selects/zero tests; avx2: lookups/selects). gf255_m51, clmul binary fields and zz32 have no obligations yet."),
+    ),
 }
 
 NA_REASON = "check not built yet (work in progress; see DESIGN.md section 8)"
@@ -125,7 +136,7 @@ man = {
     "engines": [
         {"name": "polyid", "path": "engines/polyid", "serves_properties": ["C03"],
          "kind_free_text": "interpreter over rustc MIR executing point formulas over an abstract ring; z3 decides polynomial identities"},
-        {"name": "llsym", "path": "engines/llsym", "serves_properties": ["C01", "C02", "C05", "C11", "C19", "C20"],
+        {"name": "llsym", "path": "engines/llsym", "serves_properties": ["C01", "C02", "C05", "C11", "C18", "C19", "C20"],
          "kind_free_text": "symbolic executor over rustc's optimized LLVM IR (concrete control, symbolic data) with bit-vector and integer SMT encodings; z3/cvc5 decide"},
     ],
     "checks": checks,
